@@ -1007,6 +1007,12 @@ func unmarshal(r *http.Request, data []byte, v interface{}) error {
 			_, err := unmarshaler.UnmarshalMsg(data)
 			return err
 		}
+		// Walk the structure first: a map or array header may announce billions
+		// of elements that the body cannot hold, and the decoder below would
+		// allocate for (or iterate over) the announced count.
+		if _, err := msgp.Skip(data); err != nil {
+			return err
+		}
 		decoder := msgpack.NewDecoder(bytes.NewReader(data))
 		decoder.UseLooseInterfaceDecoding(true)
 		return decoder.Decode(v)
